@@ -464,7 +464,10 @@ def default_profile():
         p_tty=0.15,
         p_stdin=0.07,
         p_devnull=0.0,
-        p_case_name=0.0,  # (C15) two adapter names that differ only in case  # (C04, C05, C06) redirect files sent to /dev/null
+        p_case_name=0.0,
+        p_qbase64=0.0,  # (C04, C06, C12: no per-read model of the quality options there)
+        p_quiet=0.0,  # (checks that do not read the text report)
+        p_debug=0.0,  # (checks that do not compare standard output)  # (C15) two adapter names that differ only in case  # (C04, C05, C06) redirect files sent to /dev/null
         p_emfile=0.08,
         p_same_name=0.0,  # (C15 only) demultiplexing: two different adapters that share a name (one file)
         p_adapter_file=0.12,  # (only when adapters are named) give one group of adapters as file:adapters.fasta
@@ -800,6 +803,18 @@ def gen_case(rng, profile=None):
                     r_[si] = rand_seq(rng, L) + r_[si]
                     if r_[qi] is not None:
                         r_[qi] = gen_qual(rng, L) + r_[qi]
+    if fastq and records and rng.random() < P["p_qbase64"]:
+        # an old Illumina file: qualities encoded with offset 64
+        opts.append(["--quality-base", "64"])
+        for r_ in records:
+            for qi in (4, 6):
+                if r_[qi]:
+                    r_[qi] = "".join(chr(min(126, ord(c) + 31)) for c in r_[qi])
+    r_ = rng.random()
+    if r_ < P["p_quiet"] and not any(g[0] == "--report" for g in outs):
+        outs.append(["--quiet"])
+    elif r_ < P["p_quiet"] + P["p_debug"]:
+        outs.append(["--debug"])
     inp = gen_input(rng, paired, fastq, P["in_containers"], p_interleaved_fasta=P["p_interleaved_fasta"],
                     p_comments_two_files=P["p_comments_two_files"], p_stdin=P["p_stdin"])
     if inp.get("stdin") == "pipe" and records and not big and rng.random() < 0.12:
@@ -975,6 +990,8 @@ LONG_FORMS = {
     "-a": "--adapter", "-g": "--front", "-b": "--anywhere", "-e": "--error-rate", "-O": "--overlap", "-n": "--times",
     "-u": "--cut", "-q": "--quality-cutoff", "-l": "--length", "-m": "--minimum-length", "-M": "--maximum-length",
     "-o": "--output", "-p": "--paired-output", "-x": "--prefix", "-y": "--suffix", "-r": "--rest-file",
+    "--max-ee": "--max-expected-errors", "--max-aer": "--max-average-error-rate", "--revcomp": "--rc",
+    "-N": "--no-match-adapter-wildcards",
 }
 ORDER_SENSITIVE = {"-a", "-g", "-b", "-A", "-G", "-B", "-u", "-U"}
 
@@ -993,7 +1010,7 @@ def _styled(case, groups):
         g = list(g)
         if g[0] in LONG_FORMS and r.random() < 0.5:
             g[0] = LONG_FORMS[g[0]]
-            if len(g) == 2 and r.random() < 0.5 and not g[1].startswith("-"):
+            if len(g) == 2 and g[0] != "--rc" and r.random() < 0.5 and not g[1].startswith("-"):
                 g = [g[0] + "=" + g[1]]
         out.append(g)
     if style >= 2:
